@@ -6,19 +6,22 @@
 (*   acked   blocked sending on ResumeCh after a pause signal [WorkerCtx: also watches ctx]          *)
 (*   busy    processing a seed (always ends: HTTP timeouts, bounded retries)                         *)
 (*   send    select{ctx, output <- seed}; the finisher's sends to the source are unguarded           *)
+(*   feed    (postprocessor only) the seed went on, an outlink is still to be fed into the same      *)
+(*           channel: select{ctx, output <- outlink} [FeedGuard; FALSE: a bare send, the negative    *)
+(*           configuration - found with a seeded change, sixth round]                                *)
 (* A stop request may arrive in ANY reachable state: idle, mid-work, with full channels, paused by   *)
 (* the disk watchdog / the operator.  ClientNil models --proxy (archiver.Stop touches the direct     *)
 (* client) with NilGuard the repair; SeenOff / SeenGuard the --disable-seencheck crash.              *)
 EXTENDS Integers, Sequences, FiniteSets, TLC
 
-CONSTANTS W, Cap, NSeeds, WorkerCtx, ClientNil, NilGuard, SeenOff, SeenGuard
+CONSTANTS W, Cap, NSeeds, WorkerCtx, ClientNil, NilGuard, SeenOff, SeenGuard, FeedGuard
 
 StageNames == <<"pre", "arch", "post", "fin">>
 Stages == {"pre", "arch", "post", "fin"}
 Workers == 1..W
 Steps == <<"watchers", "freeze", "pre", "arch", "post", "fin", "source", "reactor", "returned">>
 
-VARIABLES wst,        \* wst[st][w] \in {"idle", "acked", "busy", "send", "exited"}
+VARIABLES wst,        \* wst[st][w] \in {"idle", "acked", "busy", "send", "feed", "exited"}
           inq,        \* inq[st]: seeds waiting in the stage's input channel (count, capacity Cap)
           cancelled,  \* cancelled[st]
           paused, sig, \* pause manager: paused flag, sig[st][w] pending pause signal
@@ -70,7 +73,16 @@ Send(st, w) ==
      THEN /\ sourceUp                                   \* unguarded send to the source's channel
           /\ wst' = [wst EXCEPT ![st][w] = "idle"] /\ UNCHANGED inq
      ELSE \/ cancelled[st] /\ wst' = [wst EXCEPT ![st][w] = "exited"] /\ UNCHANGED inq
-          \/ inq[NextOf(st)] < Cap /\ inq' = [inq EXCEPT ![NextOf(st)] = @ + 1] /\ wst' = [wst EXCEPT ![st][w] = "idle"]
+          \/ /\ inq[NextOf(st)] < Cap /\ inq' = [inq EXCEPT ![NextOf(st)] = @ + 1]
+             /\ \/ wst' = [wst EXCEPT ![st][w] = "idle"]
+                \/ st = "post" /\ wst' = [wst EXCEPT ![st][w] = "feed"]      \* the page had an outlink
+  /\ UNCHANGED <<cancelled, paused, sig, sourceUp, stopping, step, crashed, work>>
+
+\* the postprocessor feeds an extracted outlink to the finisher through the same bounded channel
+FeedOut(w) ==
+  /\ wst["post"][w] = "feed"
+  /\ \/ FeedGuard /\ cancelled["post"] /\ wst' = [wst EXCEPT !["post"][w] = "exited"] /\ UNCHANGED inq
+     \/ inq["fin"] < Cap /\ inq' = [inq EXCEPT !["fin"] = @ + 1] /\ wst' = [wst EXCEPT !["post"][w] = "idle"]
   /\ UNCHANGED <<cancelled, paused, sig, sourceUp, stopping, step, crashed, work>>
 
 \* ---- stopPipeline
@@ -92,10 +104,12 @@ StopStep ==
   /\ UNCHANGED <<wst, inq, paused, sig, stopping, work>>
 
 Next == Feed \/ Pause \/ Resume \/ StopRequest \/ StopStep
-        \/ \E st \in Stages, w \in Workers : Select(st, w) \/ AckedLeave(st, w) \/ Work(st, w) \/ Send(st, w)
+        \/ (\E st \in Stages, w \in Workers : Select(st, w) \/ AckedLeave(st, w) \/ Work(st, w) \/ Send(st, w))
+        \/ (\E fw \in Workers : FeedOut(fw))
 Spec == Init /\ [][Next]_vars
 FairSpec == /\ Spec /\ WF_vars(StopStep)
             /\ \A st \in Stages : \A w \in Workers : WF_vars(Select(st, w) \/ AckedLeave(st, w) \/ Work(st, w) \/ Send(st, w))
+            /\ \A fw \in Workers : WF_vars(FeedOut(fw))
 
 NoCrash == ~crashed
 StopReturns == stopping ~> (Steps[step] = "returned")
